@@ -552,10 +552,18 @@ class IMAPClient:
                         )
                         self.ibuffer = []
                         self.ibuffer_size = 0
-                        # Drain the line terminator that follows the
-                        # literal declaration so we stay in sync.
+
+                        # The command is abandoned. For a synchronizing
+                        # literal the client has sent nothing further (we did
+                        # not ask it to continue) and what follows is its next
+                        # command. A non-synchronizing literal (and the rest
+                        # of the command) is already on its way to us: skip
+                        # it, its octets are not commands.
                         #
-                        await self.reader.readuntil(self.LINE_TERMINATOR)
+                        if m.group(2):
+                            await self.discard_rest_of_command(
+                                literal_str_length
+                            )
                         continue
 
                     # If this is a synchronizing string literal (does not have
@@ -594,6 +602,11 @@ class IMAPClient:
                         )
                         self.ibuffer = []
                         self.ibuffer_size = 0
+
+                        # What follows the literal is the rest of the command
+                        # we just refused, not a new command.
+                        #
+                        await self.discard_rest_of_command(0)
                         continue
 
                     # Loop back to read what is either a b'\r\n' or maybe
@@ -659,6 +672,36 @@ class IMAPClient:
                 except asyncio.CancelledError:
                     pass
             await self.close()
+
+    ####################################################################
+    #
+    async def discard_rest_of_command(self, literal_str_length: int) -> None:
+        """
+        We refused a command while the client, using non-synchronizing
+        literals (`{n+}`), keeps sending it. Read and throw away the literal of
+        `literal_str_length` octets that follows and then the rest of the
+        command (which may have more non-synchronizing literals) so that the
+        next thing we read is the start of the client's next command.
+        """
+        while True:
+            while literal_str_length > 0:
+                data = await self.reader.read(
+                    min(literal_str_length, self.stream_buffer_size)
+                )
+                if not data:
+                    raise asyncio.IncompleteReadError(b"", literal_str_length)
+                literal_str_length -= len(data)
+
+            # The rest of the command's line. If it ends with another
+            # non-synchronizing literal that one has to go too. (For a
+            # synchronizing one the client is waiting for us; it has sent
+            # nothing more of this command.)
+            #
+            msg = await self.reader.readuntil(self.LINE_TERMINATOR)
+            m = RE_LITERAL_STRING_START.search(msg.rstrip())
+            if not m or not m.group(2):
+                return
+            literal_str_length = int(m.group(1))
 
     ####################################################################
     #
